@@ -16,6 +16,10 @@ def demo_cmd(src, out, extra=""):
     if "fsanitize=thread" in head or "pthread" in head: 
         flags = "-g -O1 -w -fsanitize=thread" if "fsanitize=thread" in head else flags
         extra += " -lpthread"
+    if "--wrap=malloc" in head:
+        # the demonstration observes the allocator through the linker: built as it says, without a sanitizer
+        return "gcc -g -O0 -w -D_GNU_SOURCE -DSBDF_STATIC %s -Iinclude -Isrc %s src/*.c -Wl,--wrap=malloc,--wrap=calloc,--wrap=realloc,--wrap=free -o %s" % (extra, src, out)
+    extra += " -D_GNU_SOURCE -DSBDF_STATIC"
     if "-Dmalloc=my_malloc" in head:
         extra = " -Dmalloc=my_malloc -Dcalloc=my_calloc -Drealloc=my_realloc -Dfree=my_free " + extra
     return "clang %s %s -Iinclude -Isrc src/*.c %s -o %s" % (flags, extra, src, out)
